@@ -62,7 +62,9 @@ def configs(tier, seed):
                 {(2, 1), (2, 2), (3, 1), (3, 2), (3, 3), (4, 1), (4, 2), (4, 3), (4, 4), (5, 2), (5, 3), (5, 4), (5, 5), (6, 2),
                  (6, 3), (6, 4), (6, 5), (7, 2), (7, 3), (7, 5), (7, 7), (8, 3), (8, 4), (9, 4)}]
         K = 3
-    for (L, S), (style, kaldi) in itertools.product(grid, STYLES):
+    # kaldi_shift is documented to matter for centered frames only: causal + kaldi_shift at two grid points
+    extra = [((L, S), ('causal', True)) for (L, S) in ((5, 2), (7, 3))]
+    for (L, S), (style, kaldi) in list(itertools.product(grid, STYLES)) + extra:
         nmax = 2 * L + S + 2 if tier == 'quick' else min(3 * L + S, 26)
         cfgs.append(dict(kind='stft_hist', name='stft_hist L%d S%d %s%s K%d' % (L, S, style, '+kaldi' if kaldi else '', K),
                          L=L, S=S, style=style, kaldi=kaldi, K=K, NMAX=nmax))
